@@ -16,7 +16,7 @@
    Without the hypothesis history independence is false for the code as it is
    (known finding collision-bucket-insertion-order): Pinned.bucket_order_refuted. *)
 From Coq Require Import List ZArith Bool Sorted Lia.
-From GZ Require Import C15.Model C15.Cluster C15.Check C15.Proofs C15.ProofsB C15.ProofsC.
+From GZ Require Import C15.Model C15.Cluster C15.Check C15.Proofs C15.ProofsB C15.ProofsC C15.ProofsD.
 Import ListNotations.
 Open Scope Z_scope.
 
@@ -307,4 +307,34 @@ Example ex_owner_ok_collision :
   let m := amap_run 2 [OAdd (mkNode 0 10); OAdd (mkNode 1 11); OAdd (mkNode 2 12)] in
   owner_ok (vnodes t m) 5 10 = true /\ owner_ok (vnodes t m) 5 11 = true /\ owner_ok (vnodes t m) 5 12 = false /\
   owner_ok (vnodes t m) 41 10 = true /\ owner_ok (vnodes t m) 41 (-1) = false.
+Proof. vm_compute. auto. Qed.
+
+(* ---- agrees => prop_ok ----------------------------------------------------------------------------
+   For every ring history case on a well-formed table (one row of R hashes per repr, the operations
+   mention reprs of the table) that is not one of the strict exhibits of the known finding — and for
+   the cluster cases whose rows observe the final ring: if the implementation answered what the model
+   answers ([agrees]), then EVERY clause of the property check holds ([prop_ok]): membership, owner
+   of the successor slot, and on a collision-free table equality with spec_get, "a key moves only to
+   or from the operation's node" between consecutive observations, and "same canonical node map as
+   at an earlier step => same answers".  The boolean property check is a consequence of the theorems
+   above applied to the model; it can alarm only where implementation and model differ. *)
+Theorem agrees_implies_prop_ok : forall c,
+  cstrict c = false -> table_ok (cvh c) (cR c) = true -> 0 <= cR c ->
+  ops_in_U (fun n => In n (map fst (cvh c))) (cops c) ->
+  agrees (RingCase c) = true -> prop_ok (RingCase c) = true.
+Proof. exact agrees_implies_prop_ok_l. Qed.
+Print Assumptions agrees_implies_prop_ok.
+
+(* the hypotheses are met by a concrete collision-free case with a removal and a re-add, and by a
+   colliding one (slot 7 shared) *)
+Definition ex_case (t : list (Z * list Z)) : rcase :=
+  let ops := [OAdd (mkNode 0 0); OAddR (mkNode 1 1) 1; ORemove (mkNode 0 0); OAddW (mkNode 0 2) 50] in
+  let ps := [(5, 0); (8, 1); (31, 2)] in
+  mkCase 2 t ops ps (model_gets t 2 init ops ps) false false.
+Example ex_case_hyps :
+  forall t, In t [[(0, [7; 20]); (1, [9; 30])]; [(0, [7; 20]); (1, [7; 30])]] ->
+  table_ok t 2 = true /\ agrees (RingCase (ex_case t)) = true /\ prop_ok (RingCase (ex_case t)) = true.
+Proof. intros t [<-|[<-|[]]]; vm_compute; auto. Qed.
+Example ex_case_cf :
+  collision_free [(0, [7; 20]); (1, [9; 30])] = true /\ collision_free [(0, [7; 20]); (1, [7; 30])] = false.
 Proof. vm_compute. auto. Qed.
